@@ -942,7 +942,7 @@ func main() {
 	if pairs {
 		rule = "expression trees over pair.From/TakeWhile/DropWhile/Filter/Map/Plus/Join/ToSeq/FromSeq mixed with the plain seq combinators (keys >= 1000, values < 997)"
 	}
-	rec = common.New(prop, rule+": all trees up to the depth bound over a small leaf/function alphabet, then seed-random deeper trees with leaves of 0..8 elements; "+
+	rec = common.New(prop, rule+": all trees up to the depth bound over a small leaf/function alphabet, then seed-random deeper trees with leaves of 0..8 elements, then scale families (Plus chains, towers of one combinator and leaf lengths swept over 2^k-1, 2^k, 2^k+1; sequences of millions of elements under a 64 MB stack limit); "+
 		"each tree is rebuilt from fresh leaves, drained with the documented loop and run through ForEach with the visitor failing at several positions; "+
 		"compared with a strict list interpreter of the same tree; distinct by tree; non-trivial = list semantics yields >= 1 element and the tree has >= 1 combinator")
 	defer rec.Finish()
